@@ -72,7 +72,7 @@ type FuncVal struct {
 
 type ChanObj struct {
 	ID    int
-	Queue []Value
+	items []chanItem
 }
 type ChanVal struct{ C *ChanObj }
 
